@@ -25,6 +25,25 @@ Theorem C12_parse_denotes_full :
 Proof. exact parse_denotes_full. Qed.
 Print Assumptions C12_parse_denotes_full.
 
+(* SeqQL pipes: the expression followed by `|` and ANY continuation parses to a query denoting the
+   expression alone (the OR-chain and the AND-chain are folded at the pipe exactly as at the end of
+   input), with minimal and with redundant parentheses. *)
+Theorem C12_parse_denotes_pipe :
+  forall e s, exists t,
+    parse (render_min e ++ TPipe :: s) = Ok t /\ parse (render_full e ++ TPipe :: s) = Ok t /\
+    (forall v, eval v t = den v e).
+Proof. exact parse_denotes_pipe. Qed.
+Print Assumptions C12_parse_denotes_pipe.
+
+(* The parsed filter does not depend on what follows the first top-level pipe: it is the query
+   parsed without a pipe section. *)
+Theorem C12_pipe_suffix_irrelevant :
+  forall e s,
+    parse (render_min e ++ TPipe :: s) = parse (render_min e) /\
+    parse (render_full e ++ TPipe :: s) = parse (render_full e).
+Proof. exact pipe_suffix_irrelevant. Qed.
+Print Assumptions C12_pipe_suffix_irrelevant.
+
 (* Totality at token level: for EVERY token list (balanced or not) the parser returns a query or
    an error; the model's fuel (its only source of non-termination) is never exhausted. *)
 Theorem C12_parse_total_tokens : forall ts, parse ts <> OutOfFuel.
